@@ -159,7 +159,18 @@ type expect struct {
 	kept  bool
 	match *trow // nil: no match
 	why   string
-	how   string // sync | emit | sentinel | probe
+	how   string  // sync | emit | sentinel | probe
+	aux   gen.Val // second join: expected x2.aname (NULL without a match)
+}
+
+const auxTable = "aux"
+
+// auxName is the static second table: ak in 1,3,5,7,9 with aname "n<ak>".
+func auxName(x gen.Val) gen.Val {
+	if f, ok := x.Num(); ok && int64(f)%2 == 1 && f == float64(int64(f)) && f >= 1 && f <= 9 {
+		return gen.Str(fmt.Sprintf("n%d", int64(f)))
+	}
+	return gen.Nil()
 }
 
 func tcol(match *trow, col string) gen.Val {
@@ -210,9 +221,15 @@ func (c Case) whereOK(sr gen.Row, match *trow) bool {
 func (c Case) process(m *model, sr gen.Row, how string) *expect {
 	e := &expect{id: sr["id"].I, sr: sr, how: how}
 	e.match = m.find(c.streamTuple(sr))
+	e.aux = gen.Nil()
+	if c.Join2 > 0 {
+		e.aux = auxName(sr["x"])
+	}
 	switch {
 	case e.match == nil && !c.Left:
 		e.why = "INNER JOIN without match"
+	case c.Join2 > 0 && c.Join2 <= 2 && e.aux.IsNull():
+		e.why = "second (INNER) JOIN without match"
 	case !c.whereOK(sr, e.match):
 		e.why = "WHERE false"
 	default:
@@ -335,6 +352,12 @@ func (c Case) checkDirect(got map[string]any, e *expect) (ds []pbt.Disc) {
 		}
 		if g := got[it.outName()]; !sameVal(g, want) {
 			ds = append(ds, pbt.D("wrong-value", "%s: output %s (%s column %s) = %#v, want %s; whole output %v", e.desc(), it.outName(), it.Side, it.Col, g, want, got))
+		}
+	}
+	if c.Join2 > 0 {
+		names["aname2"] = true
+		if g := got["aname2"]; !sameVal(g, e.aux) {
+			ds = append(ds, pbt.D("wrong-value", "%s: output aname2 (second join, x2.aname) = %#v, want %s; whole output %v", e.desc(), g, e.aux, got))
 		}
 	}
 	for k := range got {
@@ -473,6 +496,17 @@ func runCase(c Case) (res pbt.Result) {
 	if err != nil {
 		add(pbt.D("register-error", "RegisterTable: %v", err))
 		return
+	}
+	if c.Join2 > 0 {
+		var ar []map[string]any
+		for _, k := range []int{1, 3, 5, 7, 9} {
+			ar = append(ar, map[string]any{"ak": k, "aname": fmt.Sprintf("n%d", k)})
+		}
+		if _, err := in.S.RegisterTable(auxTable, ar, "ak"); err != nil {
+			add(pbt.D("register-error", "RegisterTable(aux): %v", err))
+			return
+		}
+		res.Class("second-join")
 	}
 
 	// background writer on unrelated keys
@@ -745,6 +779,32 @@ func runCase(c Case) (res pbt.Result) {
 		}
 		var wg sync.WaitGroup
 		var mu sync.Mutex
+		// meanwhile one writer keeps replacing the table rows by themselves (same key, same contents, through both
+		// APIs): a key that is present the whole time must match at every moment
+		rewrite := make(chan struct{})
+		var rewrites int64
+		var wwg sync.WaitGroup
+		if c.Burst%2 == 0 {
+			snapshot := append([]*trow{}, m.rows...)
+			wwg.Add(1)
+			go func() {
+				defer wwg.Done()
+				for i := 0; ; i++ {
+					select {
+					case <-rewrite:
+						return
+					default:
+					}
+					r := snapshot[i%len(snapshot)]
+					if i%2 == 0 {
+						src.Upsert(r.row.Go())
+					} else {
+						_ = in.S.UpsertTable(tableName, r.row.Go())
+					}
+					atomic.AddInt64(&rewrites, 1)
+				}
+			}()
+		}
 		for g := range jobs {
 			wg.Add(1)
 			go func(js []job) {
@@ -781,7 +841,13 @@ func runCase(c Case) (res pbt.Result) {
 			}(jobs[g])
 		}
 		wg.Wait()
+		close(rewrite)
+		wwg.Wait()
+		res.Count("burst_row_replacements", atomic.LoadInt64(&rewrites))
 		res.Class("concurrent-emitsync-burst")
+		if c.Burst%2 == 0 {
+			res.Class("burst-with-row-replacement")
+		}
 	}
 	stopBG()
 
